@@ -84,7 +84,7 @@ pub fn rec_id(i: usize) -> String {
 
 pub fn input_case(recs: &[Vec<u8>], container: &str) -> (IoCase, &'static str) {
     let fastq = container.starts_with("fq");
-    let wrap = container.strip_prefix("fawrap:").and_then(|w| w.parse().ok()).unwrap_or(1_000_000);
+    let wrap = container.strip_prefix("fawrap:").or(container.strip_prefix("fqwrap:")).and_then(|w| w.trim_end_matches("gz").parse().ok()).unwrap_or(1_000_000);
     let c = IoCase {
         fastq,
         eol: b"\n".to_vec(),
@@ -93,12 +93,38 @@ pub fn input_case(recs: &[Vec<u8>], container: &str) -> (IoCase, &'static str) {
         recs: recs
             .iter()
             .enumerate()
-            .map(|(i, s)| Src { id: rec_id(i).into_bytes(), desc: None, seq: s.clone(), qual: vec![b'I'; s.len()] })
+            .map(|(i, s)| {
+                // quality strings that begin with the record markers of the format ('@' is Phred 31, '+' Phred 10)
+                let mut qual = vec![b'I'; s.len()];
+                if !qual.is_empty() && i % 2 == 1 {
+                    qual[0] = if i % 4 == 1 { b'@' } else { b'+' };
+                }
+                Src { id: rec_id(i).into_bytes(), desc: None, seq: s.clone(), qual }
+            })
             .collect(),
         container: if container.ends_with("gzm") { "gzm".into() } else if container.ends_with("gz") { "gzc".into() } else { "plain".into() },
         suffix: if fastq { ".fq".into() } else { ".fa".into() },
     };
     (c, if container.ends_with("gz") || container.ends_with("gzm") { ".gz" } else { "" })
+}
+
+/// The container a file-level harness without a container field of its own writes its input in: chosen by a hash of the
+/// request (a replay repeats it) among plain / wrapped FASTA, gzip with one and with two members, and (when every record has a
+/// base) FASTQ, plain or wrapped. The reader must deliver the same records from all of them.
+pub fn container_for(req: &str, recs: &[Vec<u8>]) -> String {
+    let mut h: u64 = 0x2545F4914F6CDD1D;
+    for b in req.bytes() {
+        h = (h ^ b as u64).wrapping_mul(0x100000001b3);
+    }
+    let fq_ok = recs.iter().all(|r| !r.is_empty() && !r.iter().any(|&b| b == b'+' || b == b'@' || b <= 32 || b >= 127));
+    match (h >> 9) % 10 {
+        0 => "fawrap:60".into(),
+        1 => "fagz".into(),
+        2 => "fagzm".into(),
+        3 if fq_ok => "fq".into(),
+        4 if fq_ok => "fqwrap:16".into(),
+        _ => "fa".into(),
+    }
 }
 
 /// write the records in the requested container; returns the path
@@ -623,7 +649,7 @@ pub fn run_files(which: &str, tier: &str, seed: u64, model: &Model, corpus_lines
             }
         };
         let container = match rng.below(6) {
-            0 => "fq".to_string(),
+            0 => if rng.chance(1, 2) { "fq".to_string() } else { format!("fqwrap:{}", rng.pick(&[5usize, 16])) },
             1 => format!("fawrap:{}", rng.pick(&[1usize, 7, 60])),
             2 => if rng.chance(1, 2) { "fagz".to_string() } else { "fagzm".to_string() },
             3 => "fqgz".to_string(),
